@@ -438,6 +438,9 @@ mod keys;
 mod reader;
 mod resolver;
 mod rodeo;
+#[cfg(lasso_verif)]
+#[doc(hidden)]
+pub mod verif;
 
 pub use interface::{Interner, IntoReader, IntoReaderAndResolver, IntoResolver, Reader, Resolver};
 pub use keys::{Key, LargeSpur, MicroSpur, MiniSpur, Spur};
